@@ -323,6 +323,8 @@ def run(ctx, rep_):
     loop_counter_start_kind(F, rep_)
     names_have_element_types(F, rep_)
     void_is_not_an_element(F, rep_)
+    self_type_is_its_class(F, rep_)
+    open_coercion_compares_with_the_result(F, rep_)
     # a variable a function reads is captured: a dependency is compared with the supplies before its capture depth is raised (shared with C07)
     from props import _netdeps
     _netdeps.run(F, rep_, "C02.net-dependencies")
@@ -842,3 +844,71 @@ def void_is_not_an_element(F, rep, rule="C02.void-value"):
         rep.ob(rule, "%s: a sub-expression of type Void is refused (the generator's instruction needs its value)" % label, verdict, detail, f.span, fn=f.path,
                key="%s|%s" % (rule, mir.short(path)))
     rep.floor(rule + " sinks judged", n, 1)
+
+
+def self_type_is_its_class(F, rep, rule="C02.self-type"):
+    """Inside a class, `Self` is a spelling of the class: what the type checker allows on a value typed `Self` must be what it allows on a value of
+    the class.  The yes/no predicates that gate an operation (supports_equ: `==` / `!=`; can_be_hashed: map keys) are evaluated abstractly on
+    Class(c), ClassSelf(Some(c)) and ClassSelf(None) and must agree - `self == other` with `other: Self` was accepted while `a == b` on two
+    objects is refused, and failed at run time (`cannot compare Object with Object`)."""
+    from props import _hashkeys
+    from absint import Variant, Opaque, some, NONE
+    TLp = "compiler::ast::r#type::TypeLayout"
+    tl = F.adt(TLp)
+    if tl is None:
+        raise AnchorMissing(TLp)
+    tln = [v["name"] for v in tl["variants"]]
+    if "ClassSelf" not in tln or "Class" not in tln:
+        raise AnchorMissing("TypeLayout::ClassSelf / Class")
+    cls = Variant(TLp, tln.index("Class"), "Class", [Opaque("c")])
+    selfs = (("Self (class known)", Variant(TLp, tln.index("ClassSelf"), "ClassSelf", [some(Opaque("c"))])),
+             ("Self (class not bound yet)", Variant(TLp, tln.index("ClassSelf"), "ClassSelf", [NONE])))
+    n = 0
+    for pn in ("supports_equ", "can_be_hashed"):
+        f = F.fn("compiler::ast::r#type::TypeLayout::" + pn)
+        if f is None:
+            continue
+        want = _hashkeys.eval_pred(F, f, cls)
+        for label, v in selfs:
+            got = _hashkeys.eval_pred(F, f, v)
+            key = "%s|%s|%s" % (rule, pn, "known" if "known" in label else "unbound")
+            if want is None or got is None:
+                rep.ob(rule, "%s answers for %s what it answers for the class" % (pn, label), "undecided", "not evaluated (class: %s, Self: %s)" % (want, got), f.span, fn=f.path, key=key)
+                continue
+            n += 1
+            rep.ob(rule, "%s answers for %s what it answers for the class" % (pn, label), "ok" if got == want else "violated",
+                   "" if got == want else "%s(class) = %s but %s(%s) = %s: `self == other` with `other: Self` type-checks and the interpreter refuses to compare two objects"
+                   % (pn, want, pn, label, got), f.span, fn=f.path, key=key)
+    rep.floor(rule + " predicate evaluations", n, 2)
+
+
+def open_coercion_compares_with_the_result(F, rep, rule="C02.coerce-open"):
+    """A fixed-shape list `[T1, T2, ..]` is offered the built-ins of an open list `[T...]` (push, remove, map ..) when it can be read as one:
+    ListType::try_coerce_to_open answers with the element type it picked.  Compatibility (eq_complex) is not transitive - `int?` takes nil, nil is
+    taken by `str?` - so every element type has to be compared *with the picked type*; a walk over neighbouring pairs lets `[int?, nil, str?]`
+    through as `[int?...]`, and `xs.remove(2)` then hands out a str typed int.  In the closures of try_coerce_to_open every eq_complex call has an
+    operand that comes from outside the closure's own item (the captured, picked type)."""
+    f = F.fn("compiler::ast::list::ListType::try_coerce_to_open")
+    if f is None:
+        raise AnchorMissing("ListType::try_coerce_to_open")
+    n, bad = 0, []
+    for g in [f] + F.closures_of(f):
+        for c in g.calls_to("compiler::ast::r#type::TypeLayout::eq_complex"):
+            n += 1
+            if g is f:
+                continue            # a loop in the function itself: judged by its operands below as well
+            srcs = []
+            for a in c.args[:2]:
+                l = op_local(a)
+                tp = rules.trace_paths(g, l, transparent=rules.TRANSPARENT | {"core::ops::index::Index::index", "core::slice::<impl [T]>::get", "core::option::Option::unwrap"}) if l is not None else set()
+                srcs.append({o for o, _ in tp})
+            item_only = [all(o[0] == "arg" and o[1] >= 2 for o in s_) and bool(s_) for s_ in srcs]     # arg 1 = the closure environment, 2.. = the item(s)
+            if all(item_only):
+                bad.append(c)
+    if f.calls_to("core::slice::<impl [T]>::windows") or any(g.calls_to("core::slice::<impl [T]>::windows") for g in F.closures_of(f)):
+        pass
+    rep.floor(rule + " compatibility tests in try_coerce_to_open", n, 1)
+    rep.ob(rule, "try_coerce_to_open compares every element type with the element type it answers with (not neighbour with neighbour)", "violated" if bad else "ok",
+           ("both operands of the eq_complex call at %s come from the closure's own item: the types are compared pairwise along the list, and compatibility is not "
+            "transitive (`const xs = [a, nil, b]` with a: int?, b: str? reads as [int?...])" % bad[0].span) if bad else "", bad[0].span if bad else f.span, fn=f.path,
+           key=rule + "|against-result")
